@@ -4,7 +4,7 @@ from . import common
 
 
 def make(namespace, ident, monitors, families=None, counts=None, events=None, budget=None, rule="", nontrivial=None,
-         assumptions=(), vary=True, crash_anchor_files=None):
+         assumptions=(), vary=True, crash_anchor_files=None, construction_anchor_files=None):
     counts = counts or {"quick": 96, "thorough": 2400}
     events = events or {"quick": 1500, "thorough": 4000}
     budget = budget or {"quick": {"wall": 75, "task_timeout": 240}, "thorough": {"wall": 900, "task_timeout": 600}}
@@ -15,7 +15,8 @@ def make(namespace, ident, monitors, families=None, counts=None, events=None, bu
 
     def execute(task, package_dir):
         return common.execute_runsim(task, package_dir, monitors, ident, nontrivial,
-                                     crash_anchor_files=crash_anchor_files)
+                                     crash_anchor_files=crash_anchor_files,
+                                     construction_anchor_files=construction_anchor_files)
 
     namespace.update({"ID": ident, "LEVEL": "exploration", "BUDGET": budget, "RULE": rule,
                       "ASSUMPTIONS": list(assumptions), "REAL_CODE": common.REAL_CODE, "STUBBED": common.STUBBED,
